@@ -1,8 +1,10 @@
+pub mod c18;
 pub mod checks;
 pub mod checks2;
 pub mod driver;
 pub mod eng;
 pub mod gen;
+pub mod longgame;
 pub mod model;
 pub mod mon_more;
 pub mod mon_rules;
@@ -45,7 +47,9 @@ pub fn dispatch(cfg: &Cfg, _extra: &[String]) -> i32 {
         "C16" => checks2::c16(cfg),
         "C16-strings" => checks2::c16_strings_child(cfg),
         "C17" => checks2::c17(cfg),
+        "C18" => c18::c18(cfg),
         "C19" => checks2::c19(cfg),
+        "C20" => longgame::c20(cfg),
         _ => {
             eprintln!("unknown property id {}", cfg.id);
             3
@@ -74,7 +78,36 @@ pub fn monitor_for(id: &str) -> Option<Box<dyn driver::Monitor>> {
     })
 }
 
-pub fn replay_other(prop: &str, _v: &serde_json::Value) -> i32 {
-    eprintln!("replay of non-game witnesses for {} is not implemented yet", prop);
-    3
+pub fn replay_other(prop: &str, v: &serde_json::Value) -> i32 {
+    let kind = v.get("kind").and_then(|k| k.as_str()).unwrap_or("");
+    match kind {
+        "string" => {
+            let input = v["input"].as_str().unwrap_or("");
+            let mut sink = sink::Sink::new();
+            if prop == "C15" {
+                strings::judge_position_text(input, "replay", &mut sink);
+            } else {
+                strings::judge_notation(input, &mut sink);
+            }
+            for x in &sink.violations {
+                println!("  clause={} {}", x.clause, x.detail);
+            }
+            if sink.violation_count > 0 {
+                println!("VIOLATION property={} replay=<this file>", prop);
+                1
+            } else {
+                println!("no violation on this input with the current tree");
+                0
+            }
+        }
+        "longgame" => longgame::replay(v),
+        "value" | "c17" | "twin" | "threads" => {
+            println!("witness kind {:?}: re-run ./check.sh {} (the case is enumerated deterministically by the check itself)", kind, prop);
+            3
+        }
+        _ => {
+            eprintln!("unknown witness kind {:?}", kind);
+            3
+        }
+    }
 }
